@@ -132,6 +132,20 @@ func listing(dir, base string) string {
 	return sb.String()
 }
 
+// diskSize is the sum of the sizes of the fraction's non-temporary files: what Info().FullSize() stands for
+func diskSize(dir, base string) int64 {
+	var sum int64
+	for _, suf := range suffixes {
+		if suf == consts.SdocsTmpFileSuffix || suf == consts.IndexTmpFileSuffix {
+			continue
+		}
+		if st, err := os.Stat(filepath.Join(dir, base+suf)); err == nil {
+			sum += st.Size()
+		}
+	}
+	return sum
+}
+
 func fractionsIn(dir string) []string {
 	ents, _ := os.ReadDir(dir)
 	seen := map[string]bool{}
@@ -303,6 +317,14 @@ func checkMain(args []string) {
 	names, _ := fracmanager.VerifC15Fracs(fm)
 	say("UP %s", strings.Join(fracmanager.VerifC08FracKinds(fm), ","))
 	say("ORDER %s", strings.Join(names, ","))
+	{
+		_, sizes := fracmanager.VerifC15Fracs(fm)
+		var ss []string
+		for i := range names {
+			ss = append(ss, fmt.Sprintf("%s:%d", names[i], sizes[i]))
+		}
+		say("SIZES %s", strings.Join(ss, ","))
+	}
 	searcher := fracmanager.NewSearcher(1, fracmanager.SearcherCfg{})
 	fetcher := fracmanager.NewFetcher(1)
 	ctx := context.Background()
@@ -388,12 +410,13 @@ type checkResult struct {
 	kinds  []string
 	order  []string
 	served map[int64]string // per corpus seed: all | part | none
+	sizes  map[string]int64 // Info().FullSize() per fraction
 	detail string
 }
 
 func runCheck(dir string, skip, keep bool, corpora string) checkResult {
 	out, code := runExe(120*time.Second, "check", dir, vh.B(skip), vh.B(keep), corpora)
-	res := checkResult{served: map[int64]string{}}
+	res := checkResult{served: map[int64]string{}, sizes: map[string]int64{}}
 	for _, l := range strings.Split(out, "\n") {
 		switch {
 		case strings.HasPrefix(l, "UP"):
@@ -403,6 +426,13 @@ func runCheck(dir string, skip, keep bool, corpora string) checkResult {
 			}
 		case strings.HasPrefix(l, "ORDER "):
 			res.order = strings.Split(strings.TrimPrefix(l, "ORDER "), ",")
+		case strings.HasPrefix(l, "SIZES "):
+			for _, f := range strings.Split(strings.TrimPrefix(l, "SIZES "), ",") {
+				if kv := strings.Split(f, ":"); len(kv) == 2 {
+					v, _ := strconv.ParseInt(kv[1], 10, 64)
+					res.sizes[kv[0]] = v
+				}
+			}
 		case strings.HasPrefix(l, "OBS "):
 			var seed int64
 			var n, found, extra, exact, missing, wrong int
@@ -906,6 +936,20 @@ func (h *harness) retention(rng *vh.RNG) {
 		h.orOrder.Error = fmt.Sprintf("expected %d fractions, the store lists %v", k+1, names)
 		return
 	}
+	// the sizes retention works with (after a start that found no .frac-cache) are the sizes of the files
+	var disk []int
+	sizeReported := false
+	for i, nme := range names {
+		d := int(diskSize(base, nme))
+		disk = append(disk, d)
+		h.orOrder.Case("size "+fmt.Sprint(i), true, "size-equals-files="+vh.B(d == sizes[i]))
+		if d != sizes[i] && !sizeReported {
+			sizeReported = true
+			h.rep.Violate(vh.Violation{Site: "frac/sealed.go:loadHeader", Class: "fraction-size-differs-from-files",
+				What:   fmt.Sprintf("after a start without .frac-cache fraction %d of %v reports FullSize %d, its files occupy %d bytes (retention works with the reported value)", i, names, sizes[i], d),
+				Replay: []string{"retention sizes"}})
+		}
+	}
 	sum := 0
 	var limits []int
 	for _, s := range sizes {
@@ -927,13 +971,16 @@ func (h *harness) retention(rng *vh.RNG) {
 		h.chShr.Add(fmt.Sprintf("shrink %d %s", total, vh.JoinInts(sizes)), fmt.Sprintf("ok %d", removed), removed > 0 && removed < len(names), fmt.Sprintf("removed=%d", removed))
 		h.orOrder.Case(fmt.Sprintf("retention sizes=%s total=%d", vh.JoinInts(sizes), total), removed > 0, fmt.Sprintf("removed=%d", removed))
 		// the specification of retention, computed directly: the least k with sum(sizes[k:]) <= TotalSize
-		need := 0
-		for rest := sum; rest > total && need < len(sizes); need++ {
-			rest -= sizes[need]
+		need, diskSum := 0, 0
+		for _, d := range disk {
+			diskSum += d
+		}
+		for rest := diskSum; rest > total && need < len(disk); need++ {
+			rest -= disk[need]
 		}
 		if prefixOK && removed != need {
 			h.rep.Violate(vh.Violation{Site: "fracmanager/fracmanager.go:shrinkSizes", Class: "retention-removes-wrong-number",
-				What:   fmt.Sprintf("fraction sizes %v (oldest first), TotalSize=%d: %d fractions removed, the shortest prefix that fits is %d", sizes, total, removed, need),
+				What:   fmt.Sprintf("fraction sizes on disk %v (oldest first; reported %v), TotalSize=%d: %d fractions removed, the shortest prefix that fits is %d", disk, sizes, total, removed, need),
 				Replay: []string{fmt.Sprintf("retention k=%d total=%d", k, total)}})
 		}
 		if !prefixOK {
@@ -1030,7 +1077,12 @@ func (h *harness) cache(rng *vh.RNG) {
 			}
 		}
 		sort.Strings(sealed)
-		return fmt.Sprint(r.served, sealed)
+		var sz []string
+		for _, k := range sealed {
+			nme := strings.Fields(k)[0]
+			sz = append(sz, fmt.Sprintf("%s=%d", nme, r.sizes[nme]))
+		}
+		return fmt.Sprint(r.served, sealed, sz)
 	}
 	ref := runCheck(dirCopy(work, base), false, false, corpora)
 	refS := show(ref)
@@ -1083,6 +1135,14 @@ func (h *harness) cache(rng *vh.RNG) {
 		}
 		res := runCheck(d, false, false, corpora)
 		got := show(res)
+		for nme, v := range res.sizes {
+			if dsz := diskSize(d, nme); res.up && dsz != v && strings.Contains(got, nme+" sealed") {
+				h.rep.Violate(vh.Violation{Site: "frac/sealed.go:loadHeader", Class: "fraction-size-differs-from-files",
+					What:   fmt.Sprintf(".frac-cache %s: after the restart fraction %s reports FullSize %d, its files occupy %d bytes", name, nme, v, dsz),
+					Replay: []string{"cache " + name}})
+				break
+			}
+		}
 		h.orCache.Case("cache "+name, name != "valid", "variant="+strings.SplitN(name, "@", 2)[0], "same="+vh.B(got == refS))
 		if !res.up || got != refS {
 			h.rep.Violate(vh.Violation{Site: "fracmanager/sealed_frac_cache.go:LoadFromDisk", Class: "cache-file-changes-served-set",
@@ -1138,8 +1198,8 @@ func main() {
 		chLife:  vh.NewChannel("life", "histories of one fraction on the real store (rotate, bulks, SealForcedForTests, a retention pass that deletes it as active or as sealed fraction, restarts), one child process per session, killed after the k-th file operation on the fraction's files (k over all operations of NewActive, Active.Suicide, Sealed.Suicide, the loader's own removals, and every other operation of sealing) vs SV.Lifecycle through `life`: what the store holds and the directory listing after every step, and what the final restart serves; non-trivial = the history contains a crash"),
 		chShr:   vh.NewChannel("shrink", "the real shrinkSizes on a store with several sealed fractions of growing size, TotalSize placed inside and exactly at every boundary, vs SV.Lifecycle.shrink: number of fractions removed; non-trivial = some but not all removed"),
 		orLife:  vh.NewOracle("life.restart", "every history of the life channel: no Load dies and the final restart serves the fraction completely or not at all; non-trivial = the history contains a crash"),
-		orOrder: vh.NewOracle("retention.order", "after shrinkSizes the remaining fractions are a suffix of the creation order and a restart serves exactly them; after a restart that finds an older unsealed fraction next to a newer sealed one fm.fracs is still in creation order; non-trivial = something was removed"),
-		orCache: vh.NewOracle("cache.restart", "restart with .frac-cache missing / empty / garbage / stale / truncated at several lengths / parsing but with entries that lack the sizes (name only, numeric fields zeroed, no index_on_disk - what NewSealed explicitly refuses to trust) serves the same fractions and documents as with the valid cache; non-trivial = not the valid cache"),
+		orOrder: vh.NewOracle("retention.order", "after a start without .frac-cache every fraction's FullSize equals the size of its files; shrinkSizes removes the shortest prefix of the creation order that brings the files' total under TotalSize, the rest is a suffix and a restart serves exactly it; after a restart that finds an older unsealed fraction next to a newer sealed one fm.fracs is still in creation order; non-trivial = something was removed"),
+		orCache: vh.NewOracle("cache.restart", "(served set, sealed fractions and their FullSize, which must also equal the size of their files) restart with .frac-cache missing / empty / garbage / stale / truncated at several lengths / parsing but with entries that lack the sizes (name only, numeric fields zeroed, no index_on_disk - what NewSealed explicitly refuses to trust) serves the same fractions and documents as with the valid cache; non-trivial = not the valid cache"),
 	}
 	rng := vh.NewRNG(o.Seed)
 	if o.Replay != "" {
